@@ -44,6 +44,30 @@ CHECKS = {
             "Exhaustive: 55 names (33 built-ins, 3 geo, near-misses, custom namespaces) x argc 0..5 x 6 argument "
             "styles x 5 contexts = 9,625 calls; outcome incl. exception payload must equal the spec's.",
             "Trusted: spec/OData.tla Functions table (transcribed from the OData standard)."),
+    "C06": ("DESIGN.md 6/C06",
+            "TLC generates literal/identifier spellings from structured descriptions (MC_C06) with exact meanings; "
+            "invariant: the independently written TLA+ lexer reads each as intended; replayed into the real "
+            "lexer+parser, AST val and py_val compared with the exact meaning",
+            "Exhaustive over the generated families: ~6.6k spellings (boundary dates/times, 63 duration component "
+            "subsets x sign x case x 4 value sets, numbers, 1.1k strings over an adversarial alphabet, GUIDs, "
+            "geography, keyword cases, identifiers from <=3 (thorough 4) atoms incl. keyword fragments) x 9 contexts.",
+            "Trusted: MC_C06 LitGen (cross-checked against Lex.tla), expected_py() exact conversion in "
+            "harness/props/c06.py (Fraction->float correctly rounded), 1-2 us tolerance for sub-microsecond parts."),
+    "C19": ("DESIGN.md 6/C19",
+            "TLC renders filter trees under every whitespace/BWS/keyword-case layout (MC_C19), invariant: spec "
+            "lexer+parser read every layout as the expected tree; replayed into the real parser (AST + py_val) and "
+            "through the backends (same result as canonical spelling)",
+            "Exhaustive: all filters with <=1 (thorough 2) and/or/not over 17 keyword-bearing predicates x 42 layouts.",
+            "Trusted: spec/Lex.tla; backend equivalence compares results on the harness databases."),
+    "C20": ("DESIGN.md 6/C20",
+            "TLC explores the session machine MC_C20 (calls binding lexer/parser instances to probes, token-granular "
+            "interleavings with bounded context switches); every behaviour replayed on real instances (threads with "
+            "explicit hand-off per token pull); outcomes and pulled-token streams compared with fresh instances and "
+            "with the spec outcome; hash-seed x import-order configurations in fresh subprocesses",
+            "Exhaustive within bounds: all sequential histories of <=2 (thorough 3) calls over 3 instance pairings x 16 "
+            "probes; all schedules of 2 interleaved calls with <=2 (thorough 3) switches over 6 (9) probes (quick "
+            "replays a seeded sample of 6000 schedules); 4 import orders x up to 4 hash seeds.",
+            "Trusted: the hand-off harness; spec outcome per probe from Lex.tla/OData.tla."),
 }
 
 PENDING = ["C01", "C02", "C03", "C04", "C06", "C07", "C08", "C09", "C10", "C11", "C12", "C13", "C14", "C15",
